@@ -83,6 +83,29 @@ CLAIMS = {
                      'chain (complete table) + CFG reachability with role '
                      'edges deleted + method-set comparison (ast)',
     },
+    'C10': {
+        'text': 'Decides structural necessary conditions of clean failure: '
+                'peer maximum packet size tested > 0 as finally stored; '
+                'peer-driven counter loops leave on an empty read; every '
+                'coroutine is started through the reaping create_task or by a '
+                'listed owner that awaits it, the reaper and the receive '
+                'funnel turn every exception into a closed connection, the '
+                'SFTP packet loop handles decode/EOF/OS/SSH errors; an '
+                'exception-escape analysis over the resolved call graph '
+                '(explicit raises, packet getters, bytes.decode, int(), '
+                'base64, cryptography constructors, minus enclosing handlers) '
+                'shows der_decode escapes only ASN1DecodeError and '
+                'decode_ssh_public_key / decode_ssh_certificate only '
+                'KeyImportError; length limits dominate use; constant-index '
+                'reads of DER input are dominated by a length test. Tests '
+                'feed a handful of malformed inputs.',
+        'note': TB + 'not decided: complexity in general, memory for a huge '
+                'announced length, implicit IndexError/KeyError/Recursion '
+                'outside R7; import_private_key/import_public_key boundaries '
+                'are swept (thorough) but not armed.',
+        'technique': 'exception-escape analysis over the resolved call graph '
+                     '+ CFG guard-dominance + who-may-call (ast)',
+    },
 }
 
 PENDING = 'check not built yet in this session (planned, see DESIGN.md section 5)'
